@@ -64,6 +64,10 @@ def check_operator(repo: Repo, rep: Report, rule: str, ref_key: str, why: Callab
     if ref is None:
         raise AnalysisError(f"no reference signature for {ref_key}")
     got = signature(model_of(repo), f)
+    if "F0-scheduler-forwarded" not in rep.rules:
+        rep.rule("F0-scheduler-forwarded", "every subscription an operator makes on behalf of a subscriber passes that subscriber's "
+                                           "scheduler on (virtual time reaches time-based inner / fallback / source sequences)", floor=1)
+    rule_scheduler_forwarded(rep, "F0-scheduler-forwarded", f)
     keys = sorted(set(ref) | set(got))
     for k in keys:
         r, g = ref.get(k), got.get(k)
@@ -119,3 +123,75 @@ def composite_uses(repo: Repo, rep: Report, rule: str, table) -> None:
         used = [call_name(n) for n in f.all_nodes() if isinstance(n, ast.Call)]
         missing = [p for p in parts if p not in used]
         rep.ob(rule, f, f"{name} uses {parts}", not missing, f"{name} is no longer defined through {missing}")
+
+
+# subscribe sites that legitimately do not forward the subscription-time scheduler (confirmed by reading)
+SCHED_EXEMPT = {
+    ("reactivex/observable/connectableobservable.py", "ConnectableObservable.auto_connect.subscribe"):
+        "subscribes to the connectable's subject; a Subject ignores the scheduler",
+    ("reactivex/observable/defer.py", "defer_.subscribe"):
+        "failure path `throw(ex).subscribe(observer)`: throw's default scheduler delivers the error inside this call",
+}
+
+
+def scheduler_names(root: Fn) -> set:
+    """The subscription-time scheduler of a subscribe function: its second parameter and every local derived from it
+    (`_scheduler = scheduler or scheduler_ or TimeoutScheduler.singleton()`), transitively."""
+    ps = [p for p in root.params if p != "self"]
+    if len(ps) < 2:
+        return set()
+    names = {ps[1]}
+    import ast as _ast
+    for _ in range(3):
+        for g in root.walk():
+            if not g.is_func:
+                continue
+            for n in g.direct_nodes():
+                if isinstance(n, (_ast.Assign, _ast.AnnAssign)) and n.value is not None:
+                    if any(isinstance(x, _ast.Name) and x.id in names for x in _ast.walk(n.value)):
+                        for t in (n.targets if isinstance(n, _ast.Assign) else [n.target]):
+                            if isinstance(t, _ast.Name):
+                                names.add(t.id)
+    return names
+
+
+def rule_scheduler_forwarded(rep: Report, rule: str, root: Fn) -> int:
+    """Every `.subscribe(` made on behalf of a subscription passes the scheduler that subscription was made with, so
+    time-based sources without a scheduler of their own run on it (virtual time under a TestScheduler)."""
+    from ..model import is_subscribe_call
+    names = scheduler_names(root)
+    if not names:
+        return 0
+    n = 0
+    for g in root.walk():
+        if not g.is_func:
+            continue
+        for s in sites(g):
+            c = s.node
+            if not is_subscribe_call(c):
+                continue
+            n += 1
+            if (g.module.rel, root.qual) in SCHED_EXEMPT:
+                rep.ob(rule, g, f"{short(c, 60)} (exempt: {SCHED_EXEMPT[(g.module.rel, root.qual)]})", True, nontrivial=False)
+                continue
+            val = None
+            for k in c.keywords:
+                if k.arg == "scheduler":
+                    val = k.value
+            if val is None and len(c.args) >= 4:
+                val = c.args[3]
+            if val is None and len(c.args) == 2 and isinstance(c.args[1], ast.Name) and c.args[1].id in names:
+                val = c.args[1]
+            # inside a scheduled action the action's own first parameter is the scheduler that runs it
+            local = set(names)
+            h = g
+            while h is not None and h is not root:
+                if model_of(rep.repo).role.get(h) == "action" and h.params:
+                    local.add(h.params[0])
+                h = h.parent
+            ok = val is not None and any(isinstance(x, ast.Name) and x.id in local for x in ast.walk(val))
+            rep.ob(rule, g, f"{root.qual}: `{short(c, 70)}` forwards the subscription's scheduler", ok,
+                   f"{g.qual}: `{short(c, 70)}` does not pass the scheduler this subscription was made with "
+                   f"({'/'.join(sorted(names))}): a time-based source without a scheduler of its own falls back to its default "
+                   f"(real-time) scheduler -- under a TestScheduler its notifications never appear in virtual time")
+    return n
